@@ -167,6 +167,11 @@ func (c04) Run(t *tape.Tape, tier Tier) *Result {
 		// (b') ... and the verbose rendering of every opaque layer names the
 		// origin's type (not, e.g., the family it travels under)
 		if verbose := obs.Fmt("%+v", d.Err); !obs.IsPanic(verbose) {
+			if len(got) > 0 && strings.Contains(got[0].GoType, "errbase.opaque") {
+				if direct := obs.FmtDirect("%+v", d.Err); direct != verbose {
+					res.add(Violation{Prop: "C04", Oracle: "verbose-direct-equals-formattable-at-unknowing", Culprit: got[0].GoType, Expected: short(verbose), Observed: short(direct), Where: where})
+				}
+			}
 			for i := range got {
 				if strings.Contains(got[i].GoType, "errbase.opaque") && i < len(want) && want[i].TypeName != "" &&
 					!strings.Contains(verbose, "type name: "+want[i].TypeName+"\n") {
